@@ -200,6 +200,14 @@ theorem amb_unsub_losers_at_choice {α} (n : Nat) (es : List (Ev α)) (k : Nat) 
   intro st hk hc
   exact amb_choice_step n st k x (amb_final_inv n es _ (amb_init_inv n)) hk hc
 
+/-- **amb_nested_eq_flat.** `rx.amb(s0, …, s(n-1))` is built as nested binary operators (`ambNestedM`: level j =
+amb(left := sj, right := level j-1), each level with its own `choice`, a notification entering at its level and climbing
+through the levels above). For every n and every event list the nested machine and the flattened machine `ambM` used by the
+other theorems produce exactly the same effects — the same emissions and the same unsubscriptions in the same order. -/
+theorem amb_nested_eq_flat {α} (n : Nat) (es : List (Ev α)) :
+    run (ambNestedM (α := α) n) (ambNestedInit n) es = run (ambM (α := α) n) (ambInit n) es :=
+  amb_nested_run n es (ambNestedInit n) (ambInit n) rfl (by simp [AmbSim, ambInit, ambNestedInit]) (amb_init_inv n)
+
 /-- non-vacuity: three sources, source 1 notifies first: 0 then 2 are unsubscribed, then the element goes out;
 a later element of source 0 is ignored; source 1's completion ends it -/
 example :
